@@ -48,7 +48,8 @@ def blx_reg(cpu, o, row):
 @sem('bxj')
 def bxj(cpu, o, row):
     if cpu.have_virt() and not cpu.is_secure() and cpu.mode != M_HYP and (cpu.s['hstr'] >> 17) & 1:
-        raise RefNotModelled('BXJ trapped to Hyp mode')
+        cpu.unknown.add('hsr')
+        raise RefHypTrap()                 # HSTR.TJDBX: BXJ executed in a Non-secure mode other than Hyp is trapped
     if (cpu.s['jmcr'] & 1) == 0:
         cpu.bx_write_pc(cpu.R(o['m']))
     else:
